@@ -578,7 +578,9 @@ def main(argv):
             rounds += 1
             cand = [gen_unit(ck.rng, feat, malformed=False)[:-1] for _ in range(max(50, (n + len(CORPUS) - len(hs)) * 3 // 2))]
             for u, (ok_, out) in zip(cand, cpp_batch(cand, tmpdir)):
-                if not ok_:
+                # units whose expansion explodes (nested calls of macros that repeat their parameter) are dropped:
+                # they only measure speed (the per-unit CPU budget of the harness), not agreement
+                if not ok_ or sum(len(l.split()) for l in out) > 1200:
                     rejected += 1
                     continue
                 if len(hs) >= n + len(CORPUS):
